@@ -722,9 +722,29 @@ func Run(k *core.Kernel, p *Plan, seed uint64, replay *core.Decisions, realDir s
 	lib.Reset()
 	w := Materialise(p, realDir)
 	mimetype.SetLimit(p.Limit0)
-	if err := w.RunPre(); err != nil {
-		lib.Reset()
-		return nil, err
+	if len(p.Pre) > 0 {
+		// The preliminary Extend calls run as a simulation of their own (one caller):
+		// whatever the library starts in the background while registering a format is
+		// scheduled by the baton like everything else, not by the Go runtime.
+		var preErr error
+		pre := k.Run(&core.RunSpec{Bodies: []func(t *core.Task){func(t *core.Task) { preErr = w.RunPre() }},
+			Sched: core.SchedSpec{Kind: "random"}, Pool: "lifo", Seed: core.Mix(seed, 0x9e3779b9), MaxSteps: 200000})
+		if preErr != nil {
+			lib.Reset()
+			return nil, preErr
+		}
+		if pre.Class != "" || pre.Tainted {
+			// the registrations themselves deadlocked or panicked: that is the run's outcome
+			w.Cleanup()
+			pre.Tainted = true
+			for len(pre.Invoke) < len(p.Tasks) {
+				pre.Invoke, pre.Return = append(pre.Invoke, nil), append(pre.Return, nil)
+			}
+			if pre.Class == "" {
+				pre.Class, pre.Msg = "budget", "the preliminary registrations did not finish"
+			}
+			return &RunResult{Plan: p, W: w, Out: pre}, nil
+		}
 	}
 	bodies := make([]func(t *core.Task), len(p.Tasks))
 	for ti := range p.Tasks {
